@@ -324,7 +324,7 @@ func c11Run(r *simkit.Run) {
 
 	r.Sched(simkit.SchedOpts{MaxSteps: 3000000, Stick: r.DrawStick(), MaxSim: 2 * time.Hour, Quanta: []time.Duration{time.Millisecond, 10 * time.Millisecond, 100 * time.Millisecond}})
 
-	if r.Live() > 0 {
+	if r.Unfinished() {
 		r.Fail("liveness", "clients", "Process/Save/Cancel calls did not all return (%d clients still running)", r.Live())
 	}
 
